@@ -22,6 +22,9 @@ def nontrivial(line, rec):
 
 
 def run(ctx):
+    ctx.stream("tu_net", gen.tu_net_lines(ctx.rng.fork("tu_net"), 800 if ctx.quick else 20000),
+               "CMRtuTest on network matrices of every size, certified by their digraph (network => TU is proved: NetworkTU.v)",
+               describe=lambda c: gen.TU_NET_CODES.get(c, str(c)), nontrivial=lambda l, r: True)
     import clilib as _cl
     _cl.stream(ctx, "cligraphout", gen.cligraphout_lines(ctx.rng.fork("cligraphout"), 500 if ctx.quick else 12000, 1),
                "cmr-network [-t] -G: the written graph file, parsed by the Coq edge-list grammar, is a certificate for the matrix parsed from the input bytes",
